@@ -170,6 +170,16 @@ def run_direct(shard, ctx):
     scratch = os.environ.get("VERIF_SHARD_SCRATCH", ".")
     for i in range(shard["n"]):
         rng = rng_for(shard["seed"], "c03", shard["index"], i)
+        if i == 1 and shard["index"] % 4 == 0:
+            # an unwrapped chromosome: one sequence line longer than 1 MiB
+            big = bytes(rng.choice(b"ACGT") for _ in range(4096)) * rng.randint(257, 290)
+            data = b">big\n" + big + b"\n>after\nACGTNNAC\nGT\n"
+            recs_ = [("big", big), ("after", b"ACGTNNACGT")]
+            bs = rng.choice([65536, 250000])
+            scs = gfa.gen_sub_assembly(rng, recs_, bs) + [["around_1MiB", [["F", "big", 2**20 - 10, 2**20 + 10, 1, []], ["G", 5, "scaffold"], ["F", "big", 2**20 + 1, len(big), -1, []]]]]
+            ctx.count("class:sequence-line-longer-than-1MiB")
+            check_stream(ctx, data, scs, bs, 60, scratch)
+            continue
         data, meta = gfa.gen_fasta(rng)
         w = rng.choice(meta["widths"])
         bs = rng.choice([1, 2, 3, 5, 7, 11, 59, 60, 61, max(1, w - 1), w, w + 1, 250000])
@@ -186,7 +196,7 @@ def run_direct(shard, ctx):
         check_stream(ctx, data, scs, bs, rng.choice([1, 7, 60, 60, 61]), scratch)
 
 
-def check_cli_case(cr, ctx, optimised=False):
+def check_cli_case(cr, ctx, optimised=False, extra=()):
     """pretext-to-asm, FASTA in / FASTA out; each (.fa, .agp) pair against the input FASTA."""
     from vf import cli_runs
 
@@ -196,7 +206,7 @@ def check_cli_case(cr, ctx, optimised=False):
         res = cli_runs.run_pretext_to_asm(cr, out_name="out.2.fa", inproc=False, env_extra={"PYTHONOPTIMIZE": "1"})
         ctx.count("cli:runs-under-python-O")
     else:
-        res = cli_runs.run_pretext_to_asm(cr, out_name="out.2.fa")
+        res = cli_runs.run_pretext_to_asm(cr, out_name="out.2.fa", extra=list(extra))
     if res["exit_code"] != 0:
         ctx.count(f"cli:exit-{res['exit_code']}")
         return
@@ -283,6 +293,17 @@ def run_cli(shard, ctx):
             if i % 6 == 2:
                 cli_runs.clear_outputs(cr)
                 check_cli_case(cr, ctx, optimised=True)
+            if i % 6 == 4:
+                # an AGP of an earlier, different curation is already there and --no-clobber is given: the run
+                # refuses, or whatever FASTA it writes is still described by the AGP beside it
+                old_agps = {p_.name: p_.read_text() for p_ in cr["dir"].glob("out.*.agp")}
+                cli_runs.clear_outputs(cr)
+                for n_, txt in old_agps.items():
+                    lines = txt.splitlines(keepends=True)
+                    (cr["dir"] / n_).write_text("".join(lines[: max(1, len(lines) // 2)]))
+                if old_agps:
+                    ctx.count("cli:rerun-no-clobber-over-older-agp")
+                    check_cli_case(cr, ctx, extra=["--no-clobber"])
             if i % 3 == 0 and rewrite_input_fasta(cr, rng):
                 cli_runs.clear_outputs(cr)
                 ctx.count("cli:rerun-after-fasta-rewritten-with-cache-mtime")
@@ -327,8 +348,10 @@ def gates(c, tier):
         "rows:gap-longer-than-buffer": 300,
         "monitor_evals:write_scaffold": 3000,
         "class:scaffold-without-rows": 100,
+        "class:sequence-line-longer-than-1MiB": 2,
         "cli:pairs-ok": 20,
         "cli:runs-under-python-O": 10,
+        "cli:rerun-no-clobber-over-older-agp": 10,
         "cli:rerun-after-fasta-rewritten-with-cache-mtime": 10,
         "cli:rerun-after-symlink-repointed": 10,
     }
